@@ -8,6 +8,25 @@ observations eval(e, property), format(i, group), dump(i).  Every observation
 is compared with the value the same logical request yields in a FRESH PROCESS
 (baselines are computed in separate subprocesses); pure events must leave the
 canonical state unchanged; merge must change only its target.
+
+Added after the third wave of seeded changes (domains in
+mc/domains/w3_c15.py), each enumerated exhaustively, every observation judged
+by the same fresh-process baselines:
+
+* capacity: all sequences of 2 (thorough 3) decompositions on one BensonGA
+  object over n-alkanes of 3, 416, 417, 418 and 430 carbons - the raw match
+  count of the sp3-carbon pattern (24 per carbon) straddles the matcher's cap
+  of 10000 (thorough: also every length-2 sequence over two objects);
+* units: all sequences of 2 (thorough 3) loads over five libraries written in
+  different unit systems (three `units:` blocks over the same bare numbers,
+  units on every number, the shipped BensonGA), the contents of EVERY live
+  library compared with a fresh load after every load;
+* refused requests: the event estd(i, mapping) - an estimate asked with a
+  mapping made by the caller, good or perturbed in one entry (count not a
+  number / foreign group, at the first / last position) - on two live
+  libraries with uncertainty data: all sequences of <= 1 (thorough 2) earlier
+  requests (estd or decompose-and-estimate, on either object) followed by an
+  ordinary decompose-estimate-evaluate on either object.
 """
 import hashlib
 import inspect
@@ -21,6 +40,7 @@ import types
 from ..runner import Result
 from ..explore import BFS
 from .. import REPO, VERIF
+from ..domains import w3_c15 as W3
 
 TWO_HASH_SEEDS = ('thorough',)   # tiers in which the space is walked under a second PYTHONHASHSEED
 LEVEL = 'model_checking'
@@ -31,14 +51,34 @@ BOUND = {t: 'universes: 2 synthetic libraries (one with an include and '
             'uncertainty data)%s x molecule pairs; <= 2 library objects, <= 2 '
             'decompositions, <= 2 estimates per world; BFS with state matching '
             'to depth %d; plus all sequences of length <= %d over a 10-event '
-            'sub-alphabet without state matching'
+            'sub-alphabet without state matching; plus (one process per '
+            'shard, no state matching) capacity: all %d-sequences of '
+            'decompositions over 5 n-alkanes (3, 416, 417, 418, 430 C: raw '
+            'matches below / at / over the cap of 10000) on one BensonGA object%s; '
+            'units: all %d-sequences of loads over 5 libraries (3 `units:` '
+            'blocks over the same bare numbers, units on every number, shipped '
+            'BensonGA), every live library dumped after every load; refused '
+            'requests: %s of 2 synthetic uncertainty libraries%s, all '
+            'sequences of <= %d earlier requests from {9 caller-made mappings '
+            '(1 good, 8 single-entry perturbations), 2 ordinary estimates} x 2 '
+            'objects, then an ordinary estimate of each of 2 molecules on '
+            'either object with all 6 evaluations'
             % (' and 2 shipped libraries' if t == 'thorough' else
-               ' and BensonGA', DEPTH[t], SEQ_LEN[t]) for t in DEPTH}
+               ' and BensonGA', DEPTH[t], SEQ_LEN[t],
+               3 if t == 'thorough' else 2,
+               ' and all 2-sequences over two objects' if t == 'thorough' else '',
+               3 if t == 'thorough' else 2,
+               'the 4 ordered pairs',
+               ' and GRWSurface2018 twice (7 mappings, <= 1 earlier request)' if t == 'thorough' else '',
+               2 if t == 'thorough' else 1) for t in DEPTH}
 RULE = ('explicit-state BFS: from every state every enabled event is executed '
         'on freshly rebuilt real objects; observations are compared with '
         'fresh-process baselines of the same logical request.  A transition is '
         'non-trivial when the observed object has a history of at least two '
-        'events before the observation')
+        'events before the observation.  The capacity / units / refused-request '
+        'families are plain exhaustive products of their event alphabets, each '
+        'sequence executed on freshly loaded objects inside one worker process '
+        'per shard, every event judged by the same baselines')
 ASSUMPTIONS = ['canonical state = digest of every live library (contents, '
                'uncertainty block, scheme names/remaps, remembered molecule), the '
                'decompositions and estimates made, plus a generic digest of all '
@@ -48,7 +88,15 @@ ASSUMPTIONS = ['canonical state = digest of every live library (contents, '
                'evaluating an estimate whose library was merged into after the '
                'estimate was made is not judged (statement silent)',
                'baselines: one fresh subprocess per (library identity, '
-               'molecule) performing load, decompose, estimate, evaluations']
+               'molecule) performing load, decompose, estimate, evaluations; for '
+               'a caller-made mapping: load, Estimate(mapping), evaluations',
+               'an estimate made from a caller-made mapping after the library '
+               'decomposed anything is treated like one made from an earlier '
+               'decomposition: its elemental reference is the recorded finding K1',
+               'a refused request is judged by outcome class (exception type or '
+               'ok) and by what it leaves behind (library data, later results), '
+               'not by which exception the library ought to raise',
+               'nan results are compared by a canonical spelling']
 MANIFEST = dict(
     technique='explicit-state BFS over API histories on the real objects, '
               'fresh-process baselines as oracle, stateless cross-check',
@@ -58,7 +106,12 @@ MANIFEST = dict(
          'explored with state matching; every descriptor dictionary, library '
          'dump and evaluated property must equal what a fresh process returns '
          'for the same request, observations must not change any state, and a '
-         'merge must change only its target.',
+         'merge must change only its target.  Further families without state '
+         'matching: molecules at the capacity limit of the matcher decomposed '
+         'in every order on one object; libraries in different unit systems '
+         'loaded in every order in one process; requests the library refuses '
+         '(caller-made mappings with a non-numeric count or a foreign group) '
+         'before ordinary estimates, on the same or another library object.',
     note='Recorded finding K1 (stale elemental reference) is reported as a '
          'known finding; every other difference is a violation.',
     ref='5/C15')
@@ -112,8 +165,10 @@ def syn_dir():
     if 'd' not in _SYN_DIR:
         d = tempfile.mkdtemp(prefix='pgv_c15_')
         _SYN_DIR['own'] = d
-        for sub, files in (('synA', {'library.yaml': SYN_A}),
-                           ('synB', {'library.yaml': SYN_B, 'extra.yaml': SYN_B_EXTRA})):
+        for sub, files in [('synA', {'library.yaml': SYN_A}),
+                           ('synB', {'library.yaml': SYN_B, 'extra.yaml': SYN_B_EXTRA}),
+                           ('synU', {'library.yaml': W3.SYN_U})] + [
+                (n, {'library.yaml': W3.units_library(n)}) for n in sorted(W3.UNIT_SYSTEMS)]:
             os.makedirs(os.path.join(d, sub))
             with open(os.path.join(d, sub, 'scheme.yaml'), 'w') as f:
                 f.write(SCHEME)
@@ -261,7 +316,10 @@ def observe_value(f, *a, **k):
         try:
             v = f(*a, **k)
             try:
-                return ['ok', r12(v)]
+                v12 = r12(v)
+                # nan survives the JSON round trip as a float unequal to
+                # itself: give it a canonical spelling
+                return ['ok', 'nan' if v12 != v12 else v12]
             except Exception:     # noqa
                 return ['ok', repr(v)[:80]]
         except Exception as e:     # noqa
@@ -324,6 +382,24 @@ def _apply(world, ev):
                                                     else D['m'])),
                                merged_after=False, m=D['m']))
         return obs
+    if kind == 'estd':
+        # an estimate asked with a mapping made by the caller (ordered list of
+        # [group, count]); the mapping may be one the library has to refuse
+        L = world.libs[ev[1]]
+        mapping = dict((g, c) for g, c in ev[2])
+        try:
+            e = L['obj'].Estimate(mapping, 'thermochem')
+            obs = ['ok']
+        except Exception as ex:      # noqa
+            e, obs = None, ['exc', type(ex).__name__]
+        obs.append('mapping-unchanged' if list(map(list, mapping.items())) ==
+                   [list(p) for p in ev[2]] else 'MAPPING-MODIFIED')
+        # a fresh process has decomposed nothing when it makes this estimate:
+        # after any decomposition the remembered molecule differs (finding K1)
+        world.ests.append(dict(obj=e, lib=ev[1], dec=None, ident=L['ident'],
+                               stale=(L['last'] is not None), merged_after=False,
+                               m=map_key(ev[2])))
+        return obs
     if kind == 'merge':
         tgt, src = world.libs[ev[1]], world.libs[ev[2]]
         try:
@@ -359,6 +435,12 @@ def _apply(world, ev):
 
 
 PURE = ('eval', 'fmt', 'dump')
+
+
+def map_key(pairs):
+    """A caller-made mapping as the 'molecule' of a baseline request."""
+    return 'map:' + json.dumps([list(p) for p in pairs])
+
 MAXLIBS, MAXDECS, MAXESTS = 2, 2, 2
 
 
@@ -422,9 +504,15 @@ out['dump'] = c15.apply(w, ('dump', 0))
 if req.get('fmt'):
     out['fmt'] = c15.apply(w, ('fmt', 0, req['fmt']))
 if req.get('m'):
-    out['dec'] = c15.apply(w, ('dec', 0, req['m']))
-    if w.decs[0]['desc'] is not None:
-        out['est'] = c15.apply(w, ('est', 0, 0))
+    if req['m'].startswith('map:'):
+        out['est'] = c15.apply(w, ('estd', 0, json.loads(req['m'][4:])))
+        made = w.ests[0]['obj'] is not None
+    else:
+        out['dec'] = c15.apply(w, ('dec', 0, req['m']))
+        made = w.decs[0]['desc'] is not None
+        if made:
+            out['est'] = c15.apply(w, ('est', 0, 0))
+    if made:
         order = list(range(len(c15.EVALS)))
         if req.get('reverse'):
             order.reverse()
@@ -452,8 +540,8 @@ def baseline(ident, m=None, fmt=None):
             outs.append(json.loads(p.stdout.decode()))
         except Exception:      # noqa
             raise RuntimeError('baseline child failed: ' + p.stderr.decode(errors='replace')[-500:])
-        if m is None:
-            break
+        if m is None or 'eval' not in outs[0]:
+            break       # nothing was evaluated: the second order is the same run
     if len(outs) == 2 and outs[0] != outs[1]:
         outs[0]['order_dependent_baseline'] = True
     _BASE[key] = outs[0]
@@ -519,6 +607,16 @@ def check_observation(R, world, ev, obs, hist, universe_tag):
                         'fresh: %r' % (hist, obs, base), wit)
             return 'differs'
         return 'same'
+    if kind == 'estd':
+        E = world.ests[-1]
+        base = baseline(E['ident'], E['m']).get('est')
+        if obs != base:
+            R.violation('mapping-estimate-differs' if obs[-1] == 'mapping-unchanged'
+                        else 'callers-mapping-modified',
+                        'after %s, Estimate(%r) on library %d gave %r; a fresh process '
+                        'gives %r' % (hist, ev[2], ev[1], obs, base), wit)
+            return 'differs'
+        return 'same:%s' % obs[0]
     if kind == 'eval':
         E = world.ests[ev[1]]
         if E['obj'] is None:
@@ -711,7 +809,26 @@ def requests(tier):
     for ident in (('synA',), ('BensonGA',), ('BensonGA', 'BensonGA'), ('synA', 'synA')):
         for m in ('CC(C)C(C)C', 'CC'):
             reqs.append((ident, m, None))
-    return reqs
+    # third-wave families
+    for m in W3.BIG_MOLS:
+        reqs.append(((W3.BIG_LIB,), m, None))
+    for L in W3.UNITS_ALPHABET:
+        reqs.append(((L,), None, None))
+        if L.startswith('syn'):
+            reqs.append(((L,), None, 'C(C)(H)3'))
+    for fam, libs in refused_worlds(tier):
+        for L in sorted(set(libs)):
+            reqs.append(((L,), None, None))
+            for m in W3.REFUSED[fam]['finals']:
+                reqs.append(((L,), m, None))
+            for pairs in W3.refused_mappings(fam):
+                reqs.append(((L,), map_key(pairs), None))
+    seen, out = set(), []
+    for r in reqs:
+        if r not in seen:
+            seen.add(r)
+            out.append(r)
+    return out
 
 
 def precompute(tier):
@@ -780,6 +897,142 @@ def run_blank(R):
             R.outcomes['blank:clean'] += 1
 
 
+# ------------------------------------------------------------ third-wave families
+
+BIG_LEN = {'quick': 2, 'thorough': 3}
+UNITS_LEN = {'quick': 2, 'thorough': 3}
+REFUSED_PREFIX = {'quick': 1, 'thorough': 2}
+
+
+def checked(R, w, ev, hist, tag):
+    """Execute one event of a third-wave family on the world, judge the
+    observation against the fresh-process baseline, and (decompositions and
+    estimates, refused ones included) require every library's data unchanged."""
+    before = None
+    if ev[0] in ('dec', 'est', 'estd'):
+        before = [lib_digest(l['obj']) for l in w.libs]
+    obs = apply(w, ev)
+    R.evals += 1
+    if len(hist) >= 2:
+        R.nontrivial += 1
+    res = check_observation(R, w, ev, obs, hist, tag)
+    R.outcomes['%s:%s:%s' % (tag, ev[0], res)] += 1
+    if before is not None:
+        for i, l in enumerate(w.libs):
+            a, b = lib_digest(l['obj']), before[i]
+            if a[:3] != b[:3] or a[4] != b[4]:
+                R.violation('%s-changed-library-data' % ev[0], 'after %s, %r changed '
+                            'the data of library %d' % (hist, ev, i),
+                            dict(kind='hist', history=[list(e) for e in hist],
+                                 event=list(ev), universe=tag))
+    return obs
+
+
+def run_big(R, first, tier):
+    """Capacity: ALL sequences of BIG_LEN decompositions over molecules whose
+    raw match count straddles the matcher's cap, starting with `first`, on
+    one library object (thorough: also every length-2 sequence spread over
+    two objects of the library); every decomposition judged against the
+    fresh-process baseline of that molecule."""
+    import itertools
+    plans = [((('load', W3.BIG_LIB),), [('dec', 0, m) for m in (first,) + rest])
+             for rest in itertools.product(W3.BIG_MOLS, repeat=BIG_LEN[tier] - 1)]
+    if tier == 'thorough':
+        plans += [((('load', W3.BIG_LIB), ('load', W3.BIG_LIB)),
+                   [('dec', i, first), ('dec', j, m)])
+                  for i in (0, 1) for j in (0, 1) for m in W3.BIG_MOLS]
+    for hist, evs in plans:
+        w = rebuild(hist)
+        for ev in evs:
+            checked(R, w, ev, hist, 'big')
+            hist = hist + (ev,)
+        R.traces += 1
+        R.transitions += len(hist)
+    R.sample(dict(capacity_first=len(first), lengths=list(W3.BIG_LENGTHS),
+                  sequences=len(plans)), limit=1)
+
+
+def observe_libraries(R, w, hist, tag):
+    for i, L in enumerate(w.libs):
+        checked(R, w, ('dump', i), hist, tag)
+        if L['family'] == 'syn':
+            checked(R, w, ('fmt', i, 'C(C)(H)3'), hist, tag)
+
+
+def run_units(R, tier):
+    """Unit systems: ALL sequences of UNITS_LEN loads over libraries written in different unit systems (bare numbers under a
+    `units:` block; units on every number; a shipped library); after every
+    load the contents of EVERY live library are compared with a fresh load."""
+    import itertools
+    n = 0
+    for seq in itertools.product(W3.UNITS_ALPHABET, repeat=UNITS_LEN[tier]):
+        hist = ()
+        w = World()
+        for L in seq:
+            apply(w, ('load', L))
+            hist = hist + (('load', L),)
+            observe_libraries(R, w, hist, 'units')
+        R.traces += 1
+        R.transitions += len(hist)
+        n += 1
+    R.sample(dict(units_alphabet=W3.UNITS_ALPHABET, load_sequences=n), limit=1)
+
+
+def refused_worlds(tier):
+    out = [('syn', (a, b)) for a in W3.UQ_LIBS for b in W3.UQ_LIBS]
+    if tier == 'thorough':
+        out.append(('GRWSurface2018', ('GRWSurface2018', 'GRWSurface2018')))
+    return out
+
+
+def run_refused(R, fam, libs, tier):
+    """Refused requests: on two live library objects with uncertainty data,
+    ALL sequences of <= REFUSED_PREFIX earlier requests - an estimate asked with
+    a caller-made mapping (good, or perturbed in one entry so that it has to be
+    refused), or an ordinary decompose-and-estimate - on either object,
+    followed by an ordinary decompose-estimate-evaluate of every final molecule
+    on either object.  Everything observed is judged against the fresh-process
+    baseline of the same request; no request may change library data."""
+    import itertools
+    spec = W3.REFUSED[fam]
+    alphabet = []
+    for i in (0, 1):
+        for pairs in W3.refused_mappings(fam):
+            alphabet.append(('estd', i, pairs))
+        for m in spec['finals']:
+            alphabet.append(('good', i, m))
+    finals = [('good', j, m) for j in (0, 1) for m in spec['finals']]
+    kmax = REFUSED_PREFIX[tier]
+    if fam != 'syn':
+        kmax = 1
+    n = 0
+    for k in range(0, kmax + 1):
+        for prefix in itertools.product(alphabet, repeat=k):
+            for final in finals:
+                hist = tuple(('load', L) for L in libs)
+                w = rebuild(hist)
+                for req in prefix + (final,):
+                    if req[0] == 'estd':
+                        evs = [req]
+                    else:
+                        evs = [('dec', req[1], req[2]), ('est', req[1], len(w.decs))]
+                    for ev in evs:
+                        obs = checked(R, w, ev, hist, 'refused')
+                        hist = hist + (ev,)
+                        if ev[0] == 'dec' and obs[0] != 'ok':
+                            break
+                    else:
+                        if w.ests[-1]['obj'] is not None:
+                            for p in range(len(EVALS)):
+                                checked(R, w, ('eval', len(w.ests) - 1, p), hist, 'refused')
+                R.traces += 1
+                R.transitions += len(hist)
+                n += 1
+    R.sample(dict(refused_world=list(libs), requests_alphabet=len(alphabet),
+                  mappings=W3.refused_mappings(fam)[:3], finals=spec['finals'],
+                  sequences=n), limit=1)
+
+
 def shards(tier, seed):
     base = syn_dir()
     table = precompute(tier)
@@ -788,6 +1041,13 @@ def shards(tier, seed):
             ('cross', 'BensonGA', 'synA', base, table),
             ('blank', base, table)]
     out += [('seq', ('load', 'synA'), base, table), ('seq', ('load', 'synB'), base, table)]
+    out += [('big', m, base, table) for m in W3.BIG_MOLS]
+    out += [('units', base, table)]
+    firsts = []
+    for fam, libs in refused_worlds(tier):
+        if (fam, libs[0]) not in firsts:
+            firsts.append((fam, libs[0]))
+    out += [('refused', fam, first, base, table) for fam, first in firsts]
     return out
 
 
@@ -812,6 +1072,14 @@ def run_shard(shard, tier):
         run_cross(R, shard[1], shard[2], tier)
     elif shard[0] == 'blank':
         run_blank(R)
+    elif shard[0] == 'big':
+        run_big(R, shard[1], tier)
+    elif shard[0] == 'units':
+        run_units(R, tier)
+    elif shard[0] == 'refused':
+        for fam, libs in refused_worlds(tier):
+            if fam == shard[1] and libs[0] == shard[2]:
+                run_refused(R, fam, libs, tier)
     else:
         run_stateless(R, tuple(shard[1]), tier)
     R.extra['max_fresh_process_baselines'] = len(_BASE)
